@@ -1,3 +1,66 @@
-From Coq Require Import List.
-Theorem C20_placeholder : True. Proof. exact I. Qed.
-Print Assumptions C20_placeholder.
+(* C20 — templates compute their formulas
+   Property theorems only: each is closed by `exact <lemma>`; proofs live in the imported files. *)
+From Coq Require Import List ZArith QArith Qcanon Ring_theory Field_theory Permutation Sorted.
+Import ListNotations.
+From CK Require Import Base.
+From CK Require Import Circ.
+From CK Require Import Multiply.
+From CK Require Import Algebra.
+Close Scope Qc_scope. Close Scope Q_scope. Close Scope Z_scope. Open Scope nat_scope.
+
+(* the CP template circuit evaluates to sum_k w_k prod_j a_j[k] *)
+Theorem C20_cp :
+  forall (R : Type) (rO rI : R) (radd rmul : R -> R -> R),
+         semi_ring_theory rO rI radd rmul eq ->
+         forall (D : Type) (is : list (inp R D)) (w : vec R) (r : nat) (y : asg D),
+         is <> [] ->
+         length w = r ->
+         nth 0 (nth (S (length is)) (eval R rO radd rmul D (cp_circuit R D is w) y) []) rO =
+         vsum R rO radd
+           (map
+              (fun k : nat =>
+               rmul (nth k w rO) (prodl R rI rmul (map (fun i : inp R D => nth k (ifun R D i y) rO) is)))
+              (seq 0 r)).
+Proof. exact cp_circuit_correct. Qed.
+Print Assumptions C20_cp.
+
+(* a Tucker (Kronecker + sum) layer contracts the core with one more factor at a time *)
+Theorem C20_tucker :
+  forall (R : Type) (rO rI : R) (radd rmul : R -> R -> R),
+         semi_ring_theory rO rI radd rmul eq ->
+         forall (xs : list (vec R)) (b g : vec R),
+         xs <> [] ->
+         length g = length (kronn R rmul xs) * length b ->
+         dot R rO radd rmul g (kronn R rmul (xs ++ [b])) =
+         vsum R rO radd
+           (map
+              (fun i : nat => rmul (nth i (kronn R rmul xs) rO) (dot R rO radd rmul (block R (length b) g i) b))
+              (seq 0 (length (kronn R rmul xs)))).
+Proof. exact tucker_kronn. Qed.
+Print Assumptions C20_tucker.
+
+(* order-2 Tucker as the explicit double sum *)
+Theorem C20_tucker_order2 :
+  forall (R : Type) (rO rI : R) (radd rmul : R -> R -> R),
+         semi_ring_theory rO rI radd rmul eq ->
+         forall a b g : vec R,
+         length g = length a * length b ->
+         dot R rO radd rmul g (kron R rmul a b) =
+         vsum R rO radd
+           (map
+              (fun i : nat =>
+               rmul (nth i a rO)
+                 (vsum R rO radd
+                    (map (fun j : nat => rmul (nth (i * length b + j) g rO) (nth j b rO)) (seq 0 (length b)))))
+              (seq 0 (length a))).
+Proof. exact tucker2. Qed.
+Print Assumptions C20_tucker_order2.
+
+(* the chain circuit evaluates to the forward-algorithm recursion *)
+Theorem C20_hmm :
+  forall (R : Type) (rO : R) (radd rmul : R -> R -> R) (D : Type) (i0 : inp R D)
+           (steps : list (list (vec R) * inp R D)) (y : asg D),
+         last (eval R rO radd rmul D (hmm_circuit R D i0 steps) y) [] =
+         forward R rO radd rmul (inst R D y steps) (ifun R D i0 y).
+Proof. exact hmm_correct. Qed.
+Print Assumptions C20_hmm.
